@@ -149,8 +149,10 @@ Forward == /\ pc = "checking" /\ todo = {}
            /\ UNCHANGED <<phase, rules, req, todo>>
 
 Gate == Lookup \/ AccessPass \/ AccessDeny \/ AuthPass \/ AuthDeny \/ Forward
-Next == \/ \E c \in Configs : ChooseRules(c)
-        \/ \E q \in Reqs : ChooseReq(q)
+\* (the phase guards stand in front of the quantifiers so that TLC does not enumerate the universes in
+\* states where nothing is to be chosen)
+Next == \/ (phase = "rules" /\ \E c \in Configs : ChooseRules(c))
+        \/ (phase = "req" /\ \E q \in Reqs : ChooseReq(q))
         \/ Gate
 Spec == Init /\ [][Next]_vars
 
